@@ -112,6 +112,7 @@ struct Probe : squids::SQuIDS {
   // flat view of the stored state through the protected members
   void set_flat(const std::vector<double>& y) { int ss = P.size_state(), n = P.d * P.d; for (int ix = 0; ix < P.nx; ix++) { for (int ir = 0; ir < P.nrho; ir++) for (int k = 0; k < n; k++) state[ix].rho[ir][k] = y[ix * ss + ir * n + k]; for (int is = 0; is < P.nsc; is++) state[ix].scalar[is] = y[ix * ss + P.nrho * n + is]; } }
   std::vector<double> get_flat() const { int ss = P.size_state(), n = P.d * P.d; std::vector<double> y(P.neq()); for (int ix = 0; ix < P.nx; ix++) { for (int ir = 0; ir < P.nrho; ir++) for (int k = 0; k < n; k++) y[ix * ss + ir * n + k] = state[ix].rho[ir][k]; for (int is = 0; is < P.nsc; is++) y[ix * ss + P.nrho * n + is] = state[ix].scalar[is]; } return y; }
+  squids::SU_vector& rho(int ix, int ir) { return state[ix].rho[ir]; }
   // do the in-step views coincide with the stored state?
   bool views_coincide() const { for (int ix = 0; ix < P.nx; ix++) { for (int ir = 0; ir < P.nrho; ir++) if (&estate[ix].rho[ir][0] != &state[ix].rho[ir][0]) return false; if (P.nsc > 0 && estate[ix].scalar != state[ix].scalar) return false; } return true; }
 };
